@@ -72,6 +72,39 @@ Theorem C09_live : forall c s ns,
 Proof. intros c s ns G F L. destruct (drain c ns s G F L) as (A & B & _). split; assumption. Qed.
 Print Assumptions C09_live.
 
+(* Liveness under ANY healthy interleaving: from any healthy state, any sequence of
+   servicing ops (sends answered by accepts or would-block, receives answered by data or
+   would-block, service, clearRxbs, connect; no new tx) keeps the connection healthy, loses
+   nothing, and leaves at most length txbs - (number of services in which the kernel took
+   >= 1 byte) bytes queued; so once that number reaches length txbs everything queued has
+   been accepted by the kernel. *)
+Theorem C09_live_interleaved : forall c ops s,
+  gate c s = true -> forallb (healthy c) ops = true ->
+  let s' := exec c s ops in
+  gate c s' = true /\ length (txbs s') <= length (txbs s) - progress_count ops /\
+  k_sent s' ++ txbs s' = k_sent s ++ txbs s.
+Proof. exact healthy_drain. Qed.
+Print Assumptions C09_live_interleaved.
+
+Theorem C09_live_delivers_all : forall c ops s,
+  gate c s = true -> forallb (healthy c) ops = true -> length (txbs s) <= progress_count ops ->
+  txbs (exec c s ops) = [] /\ k_sent (exec c s ops) = k_sent s ++ txbs s.
+Proof.
+  intros c ops s G H L. destruct (healthy_drain c ops s G H) as (_ & B & C).
+  assert (E : txbs (exec c s ops) = []) by (destruct (txbs (exec c s ops)); [reflexivity|cbn in B; lia]).
+  split; [exact E|]. rewrite E, app_nil_r in C. exact C.
+Qed.
+Print Assumptions C09_live_delivers_all.
+
+Example C09_live_interleaved_example :
+  let c := {| kd := KClient; wl_tx := true; wl_rx := true |} in
+  let s := exec c (init true) [Tx [1;2;3;4]%N; SvcSends (SAccept 1)] in
+  let ops := [SvcSends (SFail EAGAIN); SvcRecvs [RData [9]%N; RFail EAGAIN]; Service (SAccept 1) [RData [8]%N];
+              TakeRx; SvcSends (SAccept 2); SvcRecvOnce (RData [7]%N); SvcSends (SAccept 0); SvcSends (SAccept 5)] in
+  gate c s = true /\ forallb (healthy c) ops = true /\ length (txbs s) <= progress_count ops /\
+  txbs (exec c s ops) = [] /\ k_sent (exec c s ops) = [1;2;3;4]%N.
+Proof. vm_compute. repeat split. lia. Qed.
+
 (* Non-vacuity: partial sends, would-block, a fault that cuts, short reads, EOF. *)
 Example C09_example :
   let c := {| kd := KClientTls; wl_tx := true; wl_rx := true |} in
